@@ -225,6 +225,8 @@ Definition step (t : table) (o : top) : res :=
       | r0 :: _ =>
           if ((pos <? 0) || (Z.of_nat (length r0) <? pos))%Z then Err
           else if Nat.ltb (length (rows t)) (length data) then Err
+          (* every row is checked before anything is changed: a row with merged cells may be shorter than the first *)
+          else if existsb (fun rw => Nat.ltb (length rw) (Z.to_nat pos)) (rows t) then Err
           else match Some (ensure_grid (grid t) (length r0)) with
                | None => Panic
                | Some g =>
@@ -244,6 +246,7 @@ Definition step (t : table) (o : top) : res :=
       | r0 :: _ =>
           if negb (in_range i (length r0)) then Err
           else if Nat.leb (length r0) 1 then Err
+          else if existsb (fun rw => Nat.leb (length rw) (Z.to_nat i)) (rows t) then Err
           else match Some (ensure_grid (grid t) (length r0)) with
                | None => Panic
                | Some g =>
@@ -259,6 +262,7 @@ Definition step (t : table) (o : top) : res :=
       | r0 :: _ =>
           if ((a <? 0) || (Z.of_nat (length r0) <=? b) || (b <? a))%Z then Err
           else if (Z.of_nat (length r0) - (b - a + 1) <? 1)%Z then Err
+          else if existsb (fun rw => Nat.leb (length rw) (Z.to_nat b)) (rows t) then Err
           else match Some (ensure_grid (grid t) (length r0)) with
                | None => Panic
                | Some g =>
